@@ -157,3 +157,55 @@ func (e *env) responseMetadataPlumbing() {
 		}
 	}
 }
+
+// handlerReaderLeftBehind: a bidi handler hands Recv to a goroutine of its own and returns after one response while
+// the client has neither half-closed nor cancelled (its context lives on). The call is over: over a real connection the
+// pending Recv ends (Canceled); through the wrapper it has to end as well, no pkg/wrap goroutine may stay behind.
+func (e *env) handlerReaderLeftBehind() {
+	r := e.r
+	readerMode.Store(true)
+	defer readerMode.Store(false)
+	for _, side := range []string{sideReal, sideWrap} {
+		baseline := vk.IDs(vk.Goroutines())
+		before := readerEnded.Load()
+		ctx, cancel := context.WithCancel(context.Background())
+		cl := testproto.NewTestApiClient(e.cc(side))
+		var seen string
+		panicked, what := vk.Recover(func() {
+			st, err := cl.BidiStream(ctx)
+			if err != nil {
+				seen = "error: " + normErr(err)
+				return
+			}
+			for {
+				m, err := st.Recv()
+				if err != nil {
+					seen += "end:" + normErr(err)
+					return
+				}
+				seen += m.GetMsg() + ";"
+			}
+		})
+		if panicked {
+			seen = "panic: " + what
+		}
+		gs, ok := vk.Quiesce()
+		r.Eval(1)
+		r.Count("handler-reader-left-behind-cases", 1)
+		r.Distinct("readerleft|" + side)
+		if side == sideWrap && ok {
+			ended := readerEnded.Load() > before
+			var left []vk.G
+			for _, g := range gs {
+				if !baseline[g.ID] && g.Has("sc-golang/pkg/wrap") {
+					left = append(left, g)
+				}
+			}
+			if !ended || len(left) > 0 {
+				r.Violation("C13/bidi/leak/handler-reader-left-behind", fmt.Sprintf("a bidi handler answered once and returned while a goroutine of its own was waiting in Recv, the client (context still alive, no half-close) saw %q: at the quiescent point the pending Recv has ended: %v; goroutines left:\n%s", seen, ended, vk.DescribeGs(left)), map[string]any{"side": side})
+			}
+		}
+		cancel()
+		vk.Quiesce()
+	}
+}
